@@ -9,6 +9,7 @@ import (
 	"context"
 	"fmt"
 	"os"
+	"path/filepath"
 	"sort"
 	"strings"
 	"sync"
@@ -350,6 +351,9 @@ func runProgram(p program, race bool) (*history, error) {
 	h.Yields = yCount.Load() - y0
 	if h.Hung {
 		return h, nil
+	}
+	if m, _ := filepath.Glob(filepath.Join(s.dir, "dp", "pack-*.blobs")); len(m) > 1 {
+		h.Hits = append(h.Hits, "diskpacked:pack-rolled-over-during-the-run")
 	}
 	// final read-back by one client, strictly after every other call
 	fin := []opIn{{Kind: "enum", After: "", Limit: 1000}}
